@@ -161,7 +161,7 @@ Definition crash_at (k : nat) (w : world) : world :=
 
 (* ------------------------------------------------------------------ state + exception monad *)
 
-Inductive exc := XConn | XDup | XAssert | XDupTag.
+Inductive exc := XConn | XDup | XAssert | XDupTag | XIO.     (* XIO: the transport raised (ConnectionResetError ...) *)
 
 Definition M (A : Type) := world -> (A + exc) * world.
 Definition ret {A} (a : A) : M A := fun w => (inl a, w).
@@ -225,7 +225,8 @@ Definition unjournaled (m : frame) : bool :=
   f_pd m || (mtype_eqb (f_type m) TSeqReset && negb (f_b m =? 0)).
 
 (* m: the FIXMessage handed over; f_seq m is its tag 34 when it has one (SequenceReset, PossDup) *)
-Definition send_msg (m : frame) : M unit :=
+(* send_msg up to and including the journal write; returns the encoded frame *)
+Definition send_pre (m : frame) : M frame :=
   w <- get ;;
   (if is_disc (st w) then raise XConn
    else if cstate_eqb (st w) NCE then
@@ -247,8 +248,18 @@ Definition send_msg (m : frame) : M unit :=
   (* journal first: a number that reached the wire is never allocated again; replies to a ResendRequest
      (PossDup copies, gap fills) are not journaled: the journal keeps the originals *)
   (if unjournaled m then ret tt else persist_out f) ;;;
+  ret f.
+
+Definition send_msg (m : frame) : M unit :=
+  f <- send_pre m ;;
   emit [EWrite f] ;;;
   emit [EDrain].
+
+(* send_msg over a transport that raises: in write() (nothing reaches the wire) or in drain() after write() accepted the
+   bytes.  The exception goes to the caller, the object lives on; nothing is undone: the journal row stays *)
+Definition send_fault (after_write : bool) (m : frame) : M unit :=
+  f <- send_pre m ;;
+  if after_write then emit [EWrite f] ;;; raise XIO else raise XIO.
 
 (* disconnect(state <= BROKEN, logout_message = None | text) *)
 Definition disconnect (with_logout : bool) : M unit :=
@@ -411,6 +422,7 @@ Inductive op :=
 | OConnect                       (* a transport is attached: NETWORK_CONN_ESTABLISHED *)
 | OIn (f : frame)                (* a frame from the peer reaches _process_message *)
 | OSend (m : frame)              (* the application calls send_msg *)
+| OSendFault (after_write : bool) (m : frame)   (* send_msg while the transport raises in write() / in drain() *)
 | ODisc (with_logout : bool)     (* the application / reader task calls disconnect *)
 | ORestart.                      (* stop at this quiescent point, new object over the journal *)
 
@@ -419,6 +431,7 @@ Definition step (o : op) : M unit :=
   | OConnect => set_st NCE
   | OIn f => process_message f
   | OSend m => send_msg m
+  | OSendFault d m => send_fault d m
   | ODisc b => disconnect b
   | ORestart => upd restart
   end.
